@@ -7,7 +7,7 @@ TInit == MAInit /\ l = 1
 Ev == TraceLog[l]
 IsEvent(e) == l <= TraceLen /\ Ev.e = e /\ l' = l + 1
 
-TRecv == IsEvent("Recv") /\ Recv(Ev.n, Ev.src, Ev.id, Ev.qn, Ev.lk, Ev.qt, Ev.tun)
+TRecv == IsEvent("Recv") /\ Recv(Ev.n, Ev.src, Ev.holder, Ev.id, Ev.qn, Ev.lk, Ev.qt, Ev.tun)
 TAns == IsEvent("Ans") /\ Ans(Ev.dst, Ev.id, Ev.qn, Ev.lk, Ev.qt, Ev.hdr)
 TStepEnd == IsEvent("StepEnd") /\ StepEnd
 TReset == IsEvent("Reset") /\ MAReset
